@@ -244,6 +244,9 @@ def configs(tier):
     big = 2 ** 64
     cfg += [("uint8", 0, 100, 1, "int", -1000, 1000), ("uint8", 0, 255, 5, "int", -1000, 1000), ("uint8", None, None, None, "int", 0, 255),
             ("uint8", 0, 100, None, "int", -300, 300), ("uint8", 1, 100, 3, "int", -10, 200), ("uint8", 0, 100, 1, "dec", -5, 120)]
+    # a maximum that is not a grid point counted from the minimum: the result still has to lie on the grid
+    cfg += [("uint8", 0, 100, 30, "int", -50, 300), ("int", 10, 35, 2, "int", -10, 60), ("float", 0, 100, 8, "dec", -10, 200),
+            ("float", 0, 1, "0.3", "dec", -1, 2), ("uint16", 7, 1000, 10, "int", 0, 2000)]
     cfg += [("uint16", 0, 65535, 1, "int", -70000, 70000), ("uint16", 0, 65535, 5, "int", -10, 70000), ("uint16", 50, 1000, 10, "int", 0, 2000)]
     cfg += [("uint32", 0, 2 ** 32 - 1, 1, "int", -10, 2 ** 32 + 10), ("uint32", 0, 2 ** 32 - 1, None, "int", -10, 2 ** 32 + 10),
             ("uint32", 0, 10 ** 9, 100, "int", 0, 2 * 10 ** 9)]
